@@ -10,18 +10,18 @@ abbrev S := Option Bytes
 def bytes (s : S) : Bytes := s.getD []
 def len (s : S) : Int := (bytes s).length
 
-/-- `Incr(step)` / `Decr(step)` share this: parse (empty ⇒ "0"), add with int64 wrap-around, format.
-    `none` = ParseInt error, value unchanged. -/
+/-- `Incr(step)` / `Decr(step)` share this: parse (empty ⇒ "0"), add, format.
+    `none` = ParseInt error or the result leaves int64 (value unchanged). -/
 def addInt (s : S) (delta : Int) : Option (S × Int) :=
   let txt := if (bytes s).isEmpty then [48] else bytes s
   match parseInt64 txt with
   | none => none
   | some n =>
-    let r := wrap64 (n + delta)
-    some (some (formatInt r), r)
+    let r := n + delta
+    if inInt64 r then some (some (formatInt r), r) else none
 
-def incr (s : S) (step : Int) := addInt s (wrap64 step)
-def decr (s : S) (step : Int) := addInt s (-(wrap64 step))
+def incr (s : S) (step : Int) := addInt s step
+def decr (s : S) (step : Int) := addInt s (-step)
 
 def zeros (n : Nat) : Bytes := List.replicate n 0
 
@@ -79,20 +79,17 @@ def append (s : S) (data : Bytes) : S × Int :=
     | some v => some (v ++ data)
   (s', len s')
 
-/-- `GetRange`; outer `none` = slice-bounds panic, inner `none` = nil result -/
-def getRange (s : S) (start stop : Int) : Option (Option Bytes) :=
+/-- `GetRange`: `none` = nil result -/
+def getRange (s : S) (start stop : Int) : Option Bytes :=
   let v := bytes s
   let bl : Int := v.length
-  let start := if start < 0 then bl + start else start
-  if start ≥ bl then some none else
+  let start := if start < 0 then (if bl + start < 0 then 0 else bl + start) else start
+  if start ≥ bl then none else
   let stop := wrap64 (stop + 1)                 -- `end += 1` wraps at int64 max
   let stop := if stop ≤ 0 then stop + bl else stop
   let stop := if stop > bl then bl else stop
-  if start > stop then some none else
-  if start < 0 then none else        -- s.V[start:end] with a negative start panics
-  match s with
-  | none => some none                -- unreachable: bl = 0 ⇒ start ≥ bl or start < 0
-  | some _ => some (some ((v.drop start.toNat).take (stop - start).toNat))
+  if start > stop then none else
+  some ((v.drop start.toNat).take (stop - start).toNat)
 
 def setRange (s : S) (offset : Int) (data : Bytes) : S × Int :=
   if offset < 0 then (s, 0) else
